@@ -16,6 +16,11 @@ LEVEL = dict(
     trusted_base=["rustc MIR", "value-set analysis (byteset.py)", "core::fmt template encoding"],
 )
 
+# ISO 32000-1:2008 Annex A, Table A.1 (operator summary)
+ISO_OPERATORS = [x.encode() for x in (
+    "b B b* B* BDC BI BMC BT BX c cm CS cs d d0 d1 Do DP EI EMC ET EX f F f* G g gs h i ID j J K k l m M MP n q Q re RG rg ri s S SC sc SCN scn sh "
+    "T* Tc Td TD Tf Tj TJ TL Tm Tr Ts Tw Tz v w W W* y ' \"").split()]
+
 
 def _run(ctx):
     F = ctx.facts("default")
@@ -53,15 +58,27 @@ def _run(ctx):
                what="Content::encode can write an operator and the next operation back to back without a separator")
     # operator alphabet
     opb = F.fn("parser::operator")
-    alpha = None
-    for cl in F.closures_of(opb.path):
+    # byte classes of the operator parser, in source order: one class for every byte, or one for the first byte and one for the rest
+    classes = []
+    for cl in sorted(F.closures_of(opb.path), key=lambda c: c.path):
         if cl.argc == 2 and cl.lty(0) == "bool":
-            alpha = predicate_set(F, cl)
+            classes.append(predicate_set(F, cl))
+    first = classes[0] if classes else None
+    rest = classes[-1] if classes else None
+    alpha = (first | rest) if first is not None and rest is not None else None
     delim = predicate_set(F, F.fn("parser::is_delimiter"))
     digits = frozenset(b"0123456789+-.")
-    ok = alpha is not None and delim is not None and not (alpha & delim) and not (alpha & digits)
-    ctx.ob("R-TABLE", "operator-alphabet", ok, "operator bytes %s are disjoint from delimiters and number starts" % fmt_set(alpha), opb.where(),
+    ok = alpha is not None and delim is not None and not (alpha & delim) and not (first & digits)
+    ctx.ob("R-TABLE", "operator-alphabet", ok, "operator bytes %s are disjoint from delimiters, the first byte %s from number starts" % (fmt_set(alpha), fmt_set(first)), opb.where(),
            what="the operator alphabet %s overlaps the first bytes of operand spellings" % fmt_set(alpha))
+    # every operator of ISO 32000-1 Table 51 (and the compatibility / inline-image / marked-content ones) is spelt within the alphabet
+    need_first = frozenset(o[0] for o in ISO_OPERATORS)
+    need_rest = frozenset(c for o in ISO_OPERATORS for c in o[1:])
+    miss = sorted((need_first - first) | (need_rest - rest)) if alpha is not None else None
+    ops_lost = sorted(o.decode() for o in ISO_OPERATORS if alpha is not None and (o[0] not in first or any(c not in rest for c in o[1:])))
+    ctx.ob("R-TABLE", "operator-alphabet-covers-iso", alpha is not None and not miss, "all %d operators of ISO 32000-1 Table 51 are spelt within the parser's operator alphabet" % len(ISO_OPERATORS), opb.where(),
+           what="the content parser's operator alphabet %s cannot spell the operator(s) %s (bytes %s missing): Content::decode stops or splits the token there, although Content::encode writes the operator verbatim"
+                % (fmt_set(alpha), ops_lost, fmt_set(frozenset(miss or []))))
     csp = None
     cs = F.fn("parser::content_space")
     for cl in F.closures_of(cs.path):
